@@ -54,10 +54,12 @@ func (b *backoff) duration() time.Duration {
 			ms = ms + int64(deviation)
 		}
 	}
-	if ms <= 0 {
+	// Compared as integers: float64(ms) rounds up to 2^63 for values just below it,
+	// which does not fit into a time.Duration and used to yield a negative delay.
+	if ms <= 0 || ms > int64(b.max) {
 		return b.max
 	}
-	return time.Duration(math.Min(float64(ms), float64(b.max)))
+	return time.Duration(ms)
 }
 
 func (b *backoff) reset() {
